@@ -114,12 +114,20 @@ func (fx *FnCtx) initGhost(st *State) {
 			if _, ok := wanted[site]; !ok {
 				return
 			}
-			if prev, ok := last[site]; ok {
-				_, prevStore := prev.(*ssa.Store)
-				_, curStore := ins.(*ssa.Store)
-				if prevStore && !curStore {
-					return
+			rank := func(x ssa.Instruction) int {
+				switch c := x.(type) {
+				case *ssa.Store:
+					return 3
+				case *ssa.Call:
+					if bi, ok := c.Call.Value.(*ssa.Builtin); ok && bi.Name() == "append" {
+						return 2
+					}
+					return 1
 				}
+				return 0
+			}
+			if prev, ok := last[site]; ok && rank(prev) > rank(ins) {
+				return
 			}
 			last[site] = ins
 		}
@@ -137,9 +145,10 @@ func (fx *FnCtx) initGhost(st *State) {
 					}
 					consider(ins)
 				case *ssa.Call:
-					if bi, ok := t.Call.Value.(*ssa.Builtin); ok && bi.Name() == "append" {
-						consider(ins)
+					if bi, ok := t.Call.Value.(*ssa.Builtin); ok && bi.Name() != "append" {
+						continue
 					}
+					consider(ins) // append, or (lowest rank) an ordinary call: the site fires when it returns
 				}
 			}
 		}
@@ -149,7 +158,7 @@ func (fx *FnCtx) initGhost(st *State) {
 		}
 		for site, found := range wanted {
 			if !found {
-				fx.fail("ghost site %s does not exist (no store or append on a line with that text)", site)
+				fx.fail("ghost site %s does not exist (no store, append or call on a line with that text)", site)
 			}
 		}
 	}
